@@ -80,14 +80,21 @@ unsafe impl GlobalAlloc for Tracking {
                     i = (i + 1) & (CAP - 1);
                     probes += 1;
                 }
-                if !found && TRACK_ALL.load(Ordering::Relaxed) {
-                    BAD_FREES += 1;
-                }
+                let mut watched = false;
                 for k in 0..WATCHED_N {
-                    if WATCHED[k] == a && FREED_N < WATCH_CAP {
-                        FREED[FREED_N] = a;
-                        FREED_N += 1;
+                    if WATCHED[k] == a {
+                        watched = true;
+                        if FREED_N < WATCH_CAP {
+                            FREED[FREED_N] = a;
+                            FREED_N += 1;
+                        }
                     }
+                }
+                // Freeing a block that is not live: a double free (always counted for watched
+                // addresses; for all addresses only in strict mode, since blocks allocated before
+                // tracking started are unknown).
+                if !found && (watched || TRACK_ALL.load(Ordering::Relaxed)) {
+                    BAD_FREES += 1;
                 }
             }
             unlock();
